@@ -32,6 +32,8 @@ theorem genTrace_eq_wrapTrace (W : World N V T) (g : GenTypes T) {σ : Type} (st
       simp only [convInp]
       cases step st none with
       | ret r => cases r <;> simp [convBy_eq_convO] <;> (try split <;> simp_all)
+      | escaped => simp
+      | diverged => simp
       | yield v st' => simp [convBy_eq_convO]; split <;> simp_all
     | some x =>
       simp only [convInp]
@@ -41,6 +43,8 @@ theorem genTrace_eq_wrapTrace (W : World N V T) (g : GenTypes T) {σ : Type} (st
         simp only [Option.map_some]
         cases step st (some x') with
         | ret r => cases r <;> simp [convBy_eq_convO] <;> (try split <;> simp_all)
+        | escaped => simp
+        | diverged => simp
         | yield v st' => simp [convBy_eq_convO]; split <;> simp_all
   | cons nxt more ih =>
     intro st inp
@@ -64,6 +68,8 @@ theorem genTrace_eq_wrapTrace (W : World N V T) (g : GenTypes T) {σ : Type} (st
       simp only [convInp]
       cases step st none with
       | ret r => cases r <;> simp [convBy_eq_convO] <;> (try split <;> simp_all)
+      | escaped => simp
+      | diverged => simp
       | yield v st' =>
         simp only [convBy_eq_convO, tail]
         cases Spec.convO W g.yieldT v with
@@ -80,6 +86,8 @@ theorem genTrace_eq_wrapTrace (W : World N V T) (g : GenTypes T) {σ : Type} (st
         simp only [Option.map_some]
         cases step st (some x') with
         | ret r => cases r <;> simp [convBy_eq_convO] <;> (try split <;> simp_all)
+        | escaped => simp
+        | diverged => simp
         | yield v st' =>
           simp only [convBy_eq_convO, tail]
           cases Spec.convO W g.yieldT v with
@@ -100,6 +108,33 @@ theorem C08_gen_trace (W : World N V T) (g : GenTypes T) {σ : Type} (step : σ 
     wrapTrace W g step st none sends = Spec.genTrace W g step st none sends := by
   rw [genTrace_eq_wrapTrace]; rfl
 
+/-! ### tail delegation: the body hands over to a generator it yields -/
+
+/-- with the pending sent value cleared, the wrappers' hand-over loop is the flattening of the specification -/
+theorem hop_reset_eq_flat {σ : Type} (raw : σ → Option V → RawStep σ V) (fuel : Nat) :
+    ∀ (st : σ) (inp : Option V), hop true raw fuel st inp = Spec.flat raw fuel st inp := by
+  induction fuel with
+  | zero => intro st inp; rfl
+  | succ n ih =>
+    intro st inp
+    simp only [hop, Spec.flat]
+    cases raw st inp with
+    | yield v st' => rfl
+    | ret r => rfl
+    | delegate st' => simpa using ih st' none
+
+/-- **C08 (generators with delegation).**  For every raw generator whose body may, at any point, hand over to another
+generator by yielding it (and that one to a further one, …), every declared type, transformer and input history, the
+wrapper's trace (`sync_from_generator` after fix C08-sync-delegate-sent, `async_from_generator`) is the trace of the
+undecorated generators followed through their hand-overs, with sends, yields and the return converted — whatever was
+sent before a hand-over; `fuel` bounds the number of consecutive hand-overs followed and is arbitrary. -/
+theorem C08_gen_trace_delegation (W : World N V T) (g : GenTypes T) {σ : Type} (raw : σ → Option V → RawStep σ V)
+    (fuel : Nat) (st : σ) (sends : List (Option V)) :
+    wrapTrace W g (hop true raw fuel) st none sends = Spec.genTrace W g (Spec.flat raw fuel) st none sends := by
+  have : hop true raw fuel = Spec.flat raw fuel := by
+    funext st inp; exact hop_reset_eq_flat raw fuel st inp
+  rw [this, C08_gen_trace]
+
 theorem forwardInput_pyIsNone (x : Option V) : forwardInput pyIsNone x = x := by
   cases x <;> rfl
 
@@ -115,6 +150,14 @@ theorem C08_gen_trace_lazy (W : World N V T) (g : GenTypes T) {σ : Type} (step 
     | nil => rfl
     | cons a l ih => simp [forwardInput_pyIsNone, ih]
   rw [this, forwardInput_pyIsNone, C08_gen_trace]
+
+theorem C08_gen_trace_lazy_delegation (W : World N V T) (g : GenTypes T) {σ : Type}
+    (raw : σ → Option V → RawStep σ V) (fuel : Nat) (st : σ) (sends : List (Option V)) :
+    lazyTrace W g (hop true raw fuel) pyIsNone st none sends
+      = Spec.genTrace W g (Spec.flat raw fuel) st none sends := by
+  have : hop true raw fuel = Spec.flat raw fuel := by
+    funext st inp; exact hop_reset_eq_flat raw fuel st inp
+  rw [this, C08_gen_trace_lazy]
 
 /-! ### the binding -/
 
@@ -862,6 +905,26 @@ theorem C08_truthy_forward_witness :
       = [.yielded 0, .yielded 100, .yielded 205, .returned none] ∧
     Spec.genTrace W₂ {} demoStep' 0 none [some 0, some 5, none]
       = [.yielded 0, .yielded 100, .yielded 205, .returned none] := by decide
+
+/-- a generator that yields 0, then — whatever it is resumed with — hands over to one that yields 50 and echoes -/
+def demoRaw (k : Nat) (inp : Option Nat) : RawStep Nat Nat :=
+  match k with
+  | 0 => .yield 0 1
+  | 1 => .delegate 10
+  | 10 => .yield 50 11
+  | 11 => .yield (60 + inp.getD 0) 12
+  | _ => .ret none
+
+/-- Without clearing the pending sent value at a hand-over (sync_from_generator before fix C08-sync-delegate-sent; the
+async wrapper with the reset removed) a value sent just before the hand-over is sent again to the just-started
+generator and CPython's TypeError escapes; with the reset the trace is the specification's.  Without a previous send
+both agree. -/
+theorem C08_delegation_sent_witness :
+    wrapTrace W₂ {} (hop false demoRaw 5) 0 none [some 3, some 4] = [.yielded 0, .escaped] ∧
+    wrapTrace W₂ {} (hop true demoRaw 5) 0 none [some 3, some 4] = [.yielded 0, .yielded 50, .yielded 64] ∧
+    Spec.genTrace W₂ {} (Spec.flat demoRaw 5) 0 none [some 3, some 4] = [.yielded 0, .yielded 50, .yielded 64] ∧
+    wrapTrace W₂ {} (hop false demoRaw 5) 0 none [none, some 4] = [.yielded 0, .yielded 50, .yielded 64] := by
+  decide
 
 /-- the binding of the demo call is the same under every decorator-level option the model knows, and the `**kwargs`
 value arrives converted (`(20, 101)`); with the user's options merged last instead, `no_data_loss` / `addition=False`
